@@ -9,6 +9,11 @@ pub(crate) fn is_floor_of(r: core::primitive::f32, x: core::primitive::f32) -> b
     r == (r as i64) as core::primitive::f32 && r <= x && (x == r || x < r + 1.0)
 }
 
+/// `r` is |x|: sign bit clear, same magnitude bits (NaN stays NaN).
+pub(crate) fn is_abs_of(r: core::primitive::f32, x: core::primitive::f32) -> bool {
+    r.to_bits() == x.to_bits() & 0x7fff_ffff
+}
+
 pub(crate) fn in_i64_range(x: core::primitive::f32) -> bool {
     x > -9.0e18 && x < 9.0e18
 }
@@ -25,6 +30,16 @@ pub(crate) fn in_i32_range(x: core::primitive::f32) -> bool {
 fn float_fallback_floor_contract() {
     let x: core::primitive::f32 = kani::any();
     fallback::floor(x);
+}
+
+// @ob props=C20 tier=quick kind=P cfg=core-none,core-std timeout=300
+// @fn fallback::abs
+// @clause contract of the fallback abs (in place): for every f32 bit pattern the result is the input with the sign bit cleared
+#[cfg(not(verif_skip_float_fallback_abs_contract))]
+#[kani::proof_for_contract(fallback::abs)]
+fn float_fallback_abs_contract() {
+    let x: core::primitive::f32 = kani::any();
+    fallback::abs(x);
 }
 
 // @ob props=C20 tier=quick kind=P cfg=core-none,core-std timeout=300
